@@ -163,6 +163,17 @@ CHECKS.update({
         ref="DESIGN.md section 2 C15"),
 })
 
+CHECKS.update({
+    "C08": dict(
+        technique="runtime monitoring: monitors on PhasePredictor.__call__/f0/phasepol/time_at/intervals compare every call with the "
+                  "tempo formula evaluated in fractions.Fraction on the decimal strings of the generated polyco text and the exact "
+                  "two-double time difference",
+        text="Exploration: polyco files written by the workload (entry counts, coefficient counts incl. 1 and non-multiples of 3, D/E "
+             "exponents, spans, F0, RPHASE up to 1e12, overlapping/touching/gapped entries, subsets) and the repository's data file; "
+             "scalar/array times at centres, edges, gaps and outside in UTC/TAI/TT; call sequences (phasepol then evaluate again).",
+        ref="DESIGN.md section 2 C08"),
+})
+
 NOT_YET = {}
 
 
